@@ -307,72 +307,13 @@ theorem sign_only_by_reference (s : Store) (kid : String) (k : Nat) (h : signKey
 /-- the backend is read, written and deleted only under validated names or the name `New` generated itself -/
 theorem backend_touched_only_at_valid_or_new_names (s : Store) (op : Op) (name : String)
     (h : (step valid s op).key name ≠ s.key name) :
-    valid name = true ∨ ∃ f, op = .new name f := by
-  cases op with
-  | save n =>
-    left
-    rw [step_save] at h
-    cases hw : wSave valid s n with
-    | error e => simp [hw] at h
-    | ok p =>
-      obtain ⟨s2, k⟩ := p
-      obtain ⟨hv, hs2⟩ := wSave_ok valid s n s2 k hw
-      simp only [hw] at h
-      subst hs2
-      by_cases e : name = n
-      · rw [e]; exact hv
-      · exfalso; apply h; simp [Store.key, alGet_put, e]
-  | link k n v => simp [step, Store.key, link_backend] at h
-  | migrate => simp [step, Store.key, migrate_backend] at h
-  | new n f =>
-    by_cases e : name = n
-    · exact Or.inr ⟨f, by rw [e]⟩
-    · exfalso; apply h
-      have hk : ({ s with nextKey := s.nextKey + 1 } : Store).key n = s.key n := rfl
-      unfold step new wNew
-      simp only [hk]
-      cases hkn : s.key n with
-      | some _ => rfl
-      | none =>
-        cases f with
-        | none => simp [Store.key, alGet_put, e]
-        | some kid =>
-          simp only
-          cases hs : saveRef { s with nextKey := s.nextKey + 1, backend := alPut s.backend n s.nextKey } kid
-              { keyName := n, version := "1" } with
-          | error _ => simp [Store.key, alGet_put, e]
-          | ok s2 =>
-            have := saveRef_ok _ kid _ s2 hs
-            subst this
-            simp [Store.key, alGet_put, e]
-  | delete k =>
-    left
-    unfold step delete at h
-    cases hf : findRef s k with
-    | error e => simp [hf] at h
-    | ok r =>
-      simp only [hf] at h
-      cases hw : wDelete valid { s with refs := alDel s.refs k, published := alDel s.published k } r.keyName with
-      | error e => simp [hw, Store.key] at h
-      | ok s2 =>
-        obtain ⟨hv, hs2⟩ := wDelete_ok valid _ _ _ hw
-        simp only [hw] at h
-        subst hs2
-        by_cases e : name = r.keyName
-        · rw [e]; exact hv
-        · exfalso; apply h; simp [Store.key, alGet_del, e]
+    valid name = true ∨ ∃ f, op = .new name f := backend_touched valid s op name h
 
 /-- the names `New` drew and the names that passed validation are the only names the backend ever holds -/
 def drawnNames : List Op → List String
   | [] => []
   | .new n _ :: rest => n :: drawnNames rest
   | _ :: rest => drawnNames rest
-
-theorem step_key_name (s : Store) (op : Op) (name : String) (k : Nat) (h : (step valid s op).key name = some k) :
-    s.key name = some k ∨ valid name = true ∨ ∃ f, op = .new name f := by
-  by_cases e : (step valid s op).key name = s.key name
-  · exact Or.inl (e ▸ h)
-  · exact Or.inr (backend_touched_only_at_valid_or_new_names valid s op name e)
 
 /-- **backend namespace invariant.** After ANY history, every entry of the backend is stored under a name that
     passed `validateKID` or that `New` drew itself (a uuid, see `uuid_names_confined`). -/
